@@ -20,6 +20,10 @@ PairFailed(ev) ==
         \cup Exc("connect", ev.cn) \cup Exc("connect", ev.cn2) \cup Exc("connect", ev.cnt)
         \cup (IF ev.ov.exc = "" /\ ev.ov.v # Overlaps(ev.a, ev.b) THEN {"overlaps/overlap_iff_share_base"} ELSE {})
         \cup (IF ev.co.exc = "" /\ ev.co.v # Contains(ev.a, ev.b) THEN {"contains/contains_iff_parts_inside"} ELSE {})
+        (* a.contains(b) and `b in a` are the same question *)
+        \cup Exc("contains", ev.cos)
+        \cup (IF ev.cos.exc = "" /\ \E i \in DOMAIN ev.cos.v : ev.cos.v[i] # Contains(ev.a, ev.b)
+              THEN {"contains/every_spelling_of_containment_agrees"} ELSE {})
         \cup (IF ev.di.exc = "" /\ ev.di.v # Dist(R, ev.a, ev.b) THEN {"dist/distance_is_bases_between"} ELSE {})
         \cup (IF ev.cn.exc = "" THEN Tag("connect", Only(ConnectClause(R, X, ev.cn.v))) ELSE {})
         \cup (IF ev.cn.exc = "" /\ ev.cn2.exc = "" /\ ev.cn2.v # ev.cn.v THEN {"connect/argument_order_independent"} ELSE {})
